@@ -295,7 +295,7 @@ def replay_finding(ctx, f):
     rep = Report()
     inp = f['replay']
     check_graph(ctx, rep, inp['spec'], SelChoiceEncoderType[inp['enc']])
-    return any(d['kind'] == f['kind'] for d in rep.disagreements)
+    return any(d['kind'] in f.get('kinds', [f.get('kind')]) for d in rep.disagreements)
 
 
 def search(ctx, rep):
